@@ -94,10 +94,10 @@ def run(ctx, mod, t0):
     ties = list(getattr(mod, "TIES", []))
     out = ""
     if ties:
-        rc, out_t = C.lake_build(["FsDb.Tie.Skel"])
+        rc, out_t = C.lake_build(["FsDb.Tie.Skel", "FsDb.Tie.Tables"])
         if rc != 0:
             failed = C.failed_modules(out_t)
-            if [m for m in failed if m != "FsDb.Tie.Skel"] or not failed:
+            if [m for m in failed if m not in ("FsDb.Tie.Skel", "FsDb.Tie.Tables")] or not failed:
                 raise C.MachineryError("tie build failed outside FsDb.Tie.Skel:\n" + out_t[-3000:])
             broken_all = [n.split(":")[-1] for n in locate_failed_theorems(out_t)]
             mine = [n for n in broken_all if n in ["tie_" + t for t in ties]]
